@@ -31,6 +31,7 @@ def dispatch (o : Oracle) (kind : String) (args : List String) (body : List (Lis
   | "ret" => Ret.session args body
   | "retseq" => Ret.seqSession args body
   | "retnest" => Ret.nestSession args body
+  | "injectc" => Inject.session args body
   | "inject" => Inject.session args body
   | "injectflame" => Inject.flameSession args body
   | "static" => Static.session args body
